@@ -11,7 +11,10 @@ RULE = ("one request per case, per guarded entry point; non-trivial = an argumen
         "zero or equal-sign end value, a method name differing from a valid one in one character; for requests that are not the first one on an object "
         "(Matrix/Vector after Resize/Assign/Delete_/copy/assignment/sum/product/transposition, Interpolation after k other requests, Factorial after other "
         "Factorial/Binomial_Coefficient requests) and for constructors with unit arguments: the request at the boundary of the NEW state (index = new size-1, size; "
-        "operand of the new and of the old shape; x within 3 ulp or a geometric ladder 1e-16..1e-4 of the converted domain ends and tolerance points); distinct by case text")
+        "operand of the new and of the old shape; x within 3 ulp or a geometric ladder 1e-16..1e-4 of the converted domain ends and tolerance points); for tables of 2 .. 1000+ points "
+        "whose object has served ascending / repeated / far-jump / descending requests that leave its search state 0..17 intervals from either end: the request inside the 1 % band "
+        "beyond that end (at 1e-13 .. 0.99 of the band and at 1 ulp) and just beyond it; tables with a repeated or misplaced +-inf abscissa; Save_Function with a last interval of "
+        "1 .. 2^30 ulp; distinct by case text")
 LEVEL_TEXT = ("Theorems (Coq, all argument values, sizes and table lengths): for every guarded entry point the guard model returns Exit exactly when "
               "the request is outside the stated domain (index < size; shapes conformable; square; 3-vectors; strictly increasing table of >= 2 points with equal "
               "list lengths and rows of the right size; x not at or beyond d0 - 0.01 (x1-x0) / d1 + 0.01 (x_{N-1}-x_{N-2}) (over R, strict <); sign change or zero end value, "
@@ -21,7 +24,8 @@ LEVEL_TEXT = ("Theorems (Coq, all argument values, sizes and table lengths): for
               "Requests that are not the first one on an object: every history of Resize / Assign / Delete_Row / Delete_Column / copy / assignment / += / M = M + B / M = M * B / "
               "M = M.Transpose() keeps the representation invariant 'components holds Rows() rows of Columns() entries' that the shape guards rely on, each step exits exactly outside "
               "its domain and reads nothing out of bounds, and afterwards every guard is the stateless one on (Rows(), Columns()) (same for Vector); a sequence of Factorial / "
-              "Binomial_Coefficient requests returns iff each one is meaningful, for every content of the memo table; a sequence of requests on one Interpolation object exits iff one of them does. "
+              "Binomial_Coefficient requests returns iff each one is meaningful, for every content of the memo table; a sequence of requests on one Interpolation object (Save_Function's sweep over Linear_Space(domain) included) exits iff one of them does, "
+              "and every index its Locate requests return lies in 0..N-2 for every table length and unit argument; Save_Function returns for every number of points in exact arithmetic (over R). "
               "Unit arguments: Interpolation(x, f, x_dim, f_dim) with x_dim <= 0 leaves the table as it is, with x_dim > 0 the converted table is strictly increasing again, `domain` is its "
               "first and last abscissa and the 1 % rule is the one of the converted table (over R). "
               "Index/shape theorems are over Z and hold for the unsigned 32-bit arithmetic of the code (wrap-around explicit); order-only theorems are over an abstract "
@@ -29,12 +33,13 @@ LEVEL_TEXT = ("Theorems (Coq, all argument values, sizes and table lengths): for
               "NOT theorems: that the process really exits with a non-empty diagnostic and a failure status and that the real code performs no out-of-bounds access - this is the "
               "correspondence run: every generated request is executed in a child process of the real library, once in the plain build and once under "
               "AddressSanitizer + UBSan + libstdc++ assertions, and (returned / exited with diagnostic / crashed / sanitizer report) is compared with the model's Ok/Exit/OOB "
-              "and with an independent statement of each domain (S4). Not covered by theorems: Ridder's inner 'does not reach the root' exit (C02), the 'Matrix is singular' "
+              "and with an independent statement of each domain (S4); for request sequences on one Interpolation object the indices returned by Locate are compared with the model and "
+              "with the interval that contains the argument, and every answer with the answer of an untouched copy of the object (the search state jLast / correlated_calls is not in the model). Not covered by theorems: Ridder's inner 'does not reach the root' exit (C02), the 'Matrix is singular' "
               "exit inside Gauss-Jordan (C05; cannot fire in exact arithmetic when det != 0), Inv_Erf's nested bracket for |p|<1 (holds in doubles because erf(+-10) = +-1), "
               "the Interpolation_2D table constructor (modelled and run, only its row-size guard is a theorem), NaN parameters (pass every '<' guard; only Find_Root and Locate test for NaN).")
 LEVEL_NOTE = ("Coq 8.16.1 kernel; guard model hand-written from the current sources, containers abstracted to their sizes where their contents do not matter; "
               "theorems over Z/nat and the abstract order are axiom-free, theorems over R use the standard library's real-number axioms; Locate is modelled with its bisection branch "
-              "(the hunt branch returns the same index: C09); std::sort/unique/is_sorted/upper_bound modelled by their specifications; process exit status, diagnostics and "
+              "(the hunt branch returns the same index: C09; the run checks it on every request sequence against an untouched copy of the object); Linear_Space is modelled inside Save_Function; std::sort/unique/is_sorted/upper_bound modelled by their specifications; process exit status, diagnostics and "
               "sanitizer reports are observed, not proved")
 TOL = (0.0, 0.0)
 TRUSTED = ["fork/exit-status/diagnostic capture of harness/common.hpp; AddressSanitizer, UBSan and _GLIBCXX_ASSERTIONS as detectors of out-of-bounds accesses",
@@ -42,6 +47,7 @@ TRUSTED = ["fork/exit-status/diagnostic capture of harness/common.hpp; AddressSa
 ASSUMPTIONS = ["Matrix::Resize / Assign with a negative int size (std::length_error from std::vector::resize) and unit arguments that over- or underflow the table into "
                "one that is not strictly increasing any more are outside the quantifier (the former is not generated; the latter is generated in the thorough tier and compared with the model, without an S4 claim)",
                "NaN parameters are outside the quantifier (only Find_Root's end values and Locate's argument are tested for NaN); Inv_Erf(1.0) returns 10 by design",
+               "tables with a NaN abscissa are generated and compared with the model, without an S4 claim; a strictly increasing table with an infinite first or last abscissa is accepted (requests on it have no S4 claim)",
                "sizes, counts and indices are below 2^31 except the index arguments themselves (which range over all of unsigned int)"]
 SAN = ["-fsanitize=address,undefined", "-fno-sanitize-recover=all", "-fno-omit-frame-pointer", "-D_GLIBCXX_ASSERTIONS"]
 HARNESS_ENV = {"ASAN_OPTIONS": "exitcode=99:detect_leaks=0:abort_on_error=0", "UBSAN_OPTIONS": "halt_on_error=1:exitcode=98:print_stacktrace=0"}
@@ -148,8 +154,16 @@ def icall_verdicts(t, pos, n, sx):
             if math.isnan(a) or math.isnan(b) or b < a: vs.append(False)
             else: vs.append(worst([in_domain(sx, a), in_domain(sx, b)]))
         elif w == "glob": vs.append(True)
+        elif w == "save": vs.append(True); pos += 1         # Save_Function samples the object's own domain: meaningful for every number of points
         else: raise ValueError("interpolation request " + w)
     return vs
+
+
+def linear_space(a, b, n):
+    """the sampling points of Save_Function (Linear_Space(domain[0], domain[1], points), evaluated in doubles as the library does)"""
+    if n < 2 or a == b: return [a]
+    step = (b - a) / (n - 1.0)
+    return [a + i * step for i in range(n)]
 
 
 def icalls_ref(t):
@@ -180,8 +194,20 @@ def icalls_locs_ref(t):
     for _ in range(n):
         w = t[pos]; pos += 1
         if w == "loc": args.append(tokf(t[pos]))
-        pos += {"loc": 1, "ev": 1, "der": 2, "int": 2, "min": 2, "max": 2, "glob": 0}[w]
+        pos += {"loc": 1, "ev": 1, "der": 2, "int": 2, "min": 2, "max": 2, "glob": 0, "save": 1}[w]
     return sx, args
+
+
+def save_overshoot(t):
+    """region of known finding K-C10-2: the sequence contains a Save_Function request one of whose sampling points, as rounded, lies above
+    domain[1] by 1 % of the last interval or more (or undecidably close to that)"""
+    sx, _ = icalls_locs_ref(t)
+    if sx is None: return False
+    for k, w in enumerate(t):
+        if w == "save" and k + 1 < len(t) and t[k + 1].isdigit() and 2 <= int(t[k + 1]) <= 100000:
+            tail = linear_space(sx[0], sx[-1], int(t[k + 1]))[-3:]
+            if any(p > sx[-1] and in_domain(sx, p) is not True for p in tail): return True
+    return False
 
 
 def interval_ok(sx, x, j):
@@ -629,6 +655,7 @@ def generate(rng, tier):
     gen_sessions(rng, big, add, edge_points)
     gen_nonfinite_tables(rng, big, add)
     gen_long_sessions(rng, big, add)
+    gen_save_edges(rng, big, add)
     return cs
 
 
@@ -678,6 +705,10 @@ def gen_sessions(rng, big, add, edge_points):
                 add(f"{h} 1 {call(rng.choice(['int', 'min', 'max']), min(a, b), o_)}", "units-request", nt=True)
                 add(f"{h} 1 {call(rng.choice(['int', 'min', 'max']), o_, max(a, b))}", "units-request", nt=True)
             add(f"{h} 2 glob int {hx(sx[0])} {hx(sx[-1])}", "units-request", nt=True)
+            # Save_Function(file, points): a sweep over the object's own domain, as first request and after others
+            counts = [0, 1, 2, 3, len(g), 7, 50, 201]
+            for n_ in (counts if big else rng.sample(counts, 2)): add(f"{h} 1 save {n_}", "save-function", nt=True)
+            add(f"{h} 3 ev {hx(rng.choice(inside))} save {rng.choice(counts)} {call(rng.choice(['ev', 'loc']), rng.choice(inside + outside[:3]))}", "save-function", nt=True)
             # (b) several requests on one object: ascending (correlated, the hunt branch of Locate), descending, far jumps, repeated
             #     arguments, a meaningless request after k meaningful ones
             for _ in range(3 if not big else 20):
@@ -839,6 +870,22 @@ def gen_nonfinite_tables(rng, big, add):
         for tg in (-inf, 0.5, inf): add(f"closest {flist(l)} {hx(tg)}", "nonfinite-table", nt=True)
 
 
+def gen_save_edges(rng, big, add):
+    """Save_Function on tables whose last interval is a few ulp .. many ulp of the last abscissa wide (a geometric ladder): the last sampling point
+    domain[0] + (points-1) * step is domain[1] only up to rounding, and 1 % of the last interval is the room it has"""
+    pairs = [(0.1, 1e6 + 0.1), (1.1, 1000.3), (-0.7, 2.3), (0.3, 0.7), (1e-3, 5.7), (-1000.3, -1.1), (0.0, 1.0), (-1.0, 1.0)]
+    pairs += [(rng.uniform(-10, 10), rng.uniform(11, 1e4)) for _ in range(2 if not big else 30)]
+    widths = [1, 2, 4, 16, 64, 99, 100, 101, 128, 200, 256, 1024, 2 ** 20, 2 ** 30]
+    for (d0, d1) in pairs:
+        u = na(d1, math.inf) - d1
+        for k in (widths if big else rng.sample(widths[:9], 4) + rng.sample(widths[9:], 1)):
+            xs = [d0, 0.5 * (d0 + d1), d1 - k * u, d1]
+            if not valid_table(xs): continue
+            xd = rng.choice([-1.0, -1.0, -1.0, 10.0, 0.5])
+            for n_ in (range(2, 80) if big else rng.sample(range(2, 80), 3)):
+                add(f"icalls {flist(xs)} 4 {hx(xd)} {hx(-1.0)} 1 save {n_}", "save-function", nt=True)
+
+
 def gen_long_sessions(rng, big, add):
     """tables of every size class (2, 3, around the 10-interval correlation window, powers of two and their neighbours, several hundred to a thousand
     points), an object that has already served requests (ascending / repeated / far-jump / descending histories that leave the search state at a chosen
@@ -901,6 +948,10 @@ def gen_long_sessions(rng, big, add):
             xs_ = [inside(k, 0.5) for k in range(0, n - 1, s_)] + [inside(n - 2, 0.5)]
             add(f"{h} {len(xs_) + 1} " + " ".join(call("ev", x) for x in xs_) + " " + call("ev", band("R")), "long-table-history", nt=True)
             add(f"{h} {len(xs_) + 1} " + " ".join(call("ev", x) for x in reversed(xs_)) + " " + call("ev", band("L")), "long-table-history", nt=True)
+            # Save_Function: the library's own ascending sweep over [domain[0], domain[1]] (its last point is domain[1] up to rounding)
+            for n_ in ([n, 2 * n + 1, 3 * n - 1, rng.randrange(2, 4 * n)] if big else [rng.choice([n, 2 * n + 1, 3 * n - 1]), rng.randrange(2, 4 * n)]):
+                add(f"{h} 1 save {n_}", "save-function", nt=True)
+                add(f"{h} 3 {call('ev', inside(n - 2))} save {n_} {call('loc', band('R'))}", "save-function", nt=True)
     # two-dimensional tables with one long axis: the two Locate objects inside have their own histories
     for n in ([300] if not big else [12, 257, 300, 513]):
         gx = [float(k) for k in range(n)]; gy = [-1.0, 0.0, 4.0, 5.0]
@@ -908,6 +959,7 @@ def gen_long_sessions(rng, big, add):
             h = f"i2calls {flist(lx)} {flist(ly)} {ilist([len(ly)] * len(lx))} {hx(-1.0)} {hx(-1.0)} {hx(-1.0)}"
             for side in ("R", "L"):
                 for m in ([0, rng.randrange(1, 17)] if not big else range(0, 17)):
+                    if m > n - 2: continue
                     j = n - 2 - m if side == "R" else m
                     e = (gx[-1] + rng.choice([1e-9, 0.004, 0.009]) * (gx[-1] - gx[-2])) if side == "R" else (gx[0] - rng.choice([1e-9, 0.004, 0.009]) * (gx[1] - gx[0]))
                     longs = [gx[j] + 0.25, gx[j] + 0.75, e]
@@ -933,6 +985,7 @@ def predicates(c, io):
     if m is None: return []
     t = c.line.split(); region = ""
     if op == "mat_hist" and mat_ref(t)[2]: region = ":after-zero-row-result"
+    if op in ("icalls", "icalls_t") and m and head == "EXIT" and save_overshoot(t): region = ":save-function-overshoot"
     if m and head != "OK": return [(op + ":meaningful-request-exits" + region, f"a meaningful request did not return normally ({io})")]
     if (not m) and head != "EXIT": return [(op + ":meaningless-request-accepted" + region, f"a request with no mathematical meaning returned normally ({io}) instead of exiting with a diagnostic")]
     out = []
@@ -993,9 +1046,9 @@ def extra(ctx, rng):
         exe = vbuild.build_harness(os.path.join(vbuild.VERIF, "harness", "C10.cpp"), lib, extra_flags=SAN)
     except RuntimeError as e:
         return {"violations": out["violations"], "broken": [{"kind": "build", "what": "sanitizer build of the library or the harness failed", "log": str(e)[-2000:]}]}
-    # four workers side by side (every exiting request costs a fork of the sanitized process); order is preserved
+    # eight workers side by side (every exiting request costs a fork of the sanitized process); order is preserved
     from concurrent.futures import ThreadPoolExecutor
-    nchunk = 4; step = (len(lines) + nchunk - 1) // nchunk if lines else 1
+    nchunk = 8; step = (len(lines) + nchunk - 1) // nchunk if lines else 1
     chunks = [lines[k:k + step] for k in range(0, len(lines), step)]
     with ThreadPoolExecutor(nchunk) as ex:
         parts = list(ex.map(lambda kc: vcheck.run_exe(exe, kc[1], work, f"asan{kc[0]}", env=HARNESS_ENV), enumerate(chunks)))
